@@ -40,6 +40,12 @@ pub broadcast axiom fn axiom_slice_len_bound<T>(s: &[T]) ensures #[trigger] s@.l
 pub assume_specification<I>[ <str as core::ops::Index<I>>::index ](s: &str, index: I) -> (output: &<I as core::slice::SliceIndex<str>>::Output) where I: core::slice::SliceIndex<str>
     ensures call_ensures(<I as core::slice::SliceIndex<str>>::index, (index, s), output);
 
+// (A6) bool::then_some(b, x) is `if b { Some(x) } else { None }` (no vstd specification)
+pub assume_specification<T>[ bool::then_some ](b: bool, x: T) -> (r: Option<T>)
+    ensures r == (if b { Some(x) } else { None::<T> });
+// (A7) Option::flatten (no vstd specification)
+pub assume_specification<T>[ Option::<Option<T>>::flatten ](o: Option<Option<T>>) -> (r: Option<T>)
+    ensures r == (match o { Some(x) => x, None => None::<T> });
 // (A3) std::slice::from_ref views one element as a one-element slice
 pub assume_specification<T>[ core::slice::from_ref ](x: &T) -> (r: &[T]) ensures r@ == seq![*x];
 
@@ -165,6 +171,7 @@ use crate::span::Span;
 
 verus! {
 // ---- the lexer's contract as seen by the parser -----------------------------------------
+#[verifier::opaque]
 pub open spec fn adjacent(ts: Seq<Token>) -> bool {
     forall|i: int, j: int| 0 <= i && j == i + 1 && j < ts.len() ==> (#[trigger] ts[i]).span.e() == (#[trigger] ts[j]).span.s()
 }
@@ -180,6 +187,7 @@ pub proof fn lemma_mono(ts: Seq<Token>, i: int, j: int)
     ensures ts[i].span.s() <= ts[j].span.s(), ts[i].span.e() <= ts[j].span.e()
     decreases j - i
 {
+    reveal(adjacent);
     if i < j {
         lemma_mono(ts, i, j - 1);
         assert(ts[j - 1].span.e() == ts[j].span.s());
@@ -189,11 +197,20 @@ pub proof fn lemma_sub_ok(ts: Seq<Token>, a: int, b: int)
     requires toks_ok(ts), 0 <= a <= b <= ts.len()
     ensures toks_ok(ts.subrange(a, b))
 {
+    reveal(adjacent);
     let sub = ts.subrange(a, b);
     assert forall|i: int, j: int| 0 <= i && j == i + 1 && j < sub.len() implies (#[trigger] sub[i]).span.e() == (#[trigger] sub[j]).span.s() by {
         assert(sub[i] == ts[a + i]); assert(sub[j] == ts[a + j]);
     }
 }
+/// the per-token facts of the (opaque) lexer contract
+pub proof fn lemma_tok(ts: Seq<Token>, i: int)
+    requires toks_ok(ts), 0 <= i < ts.len()
+    ensures ts[i].span.s() < ts[i].span.e(), gbnd(ts[i].span.s()), gbnd(ts[i].span.e()),
+        ts[i].kind == TokenKind::Escaped ==> gbnd(ts[i].span.s() + 1) && ts[i].span.s() + 1 <= ts[i].span.e() <= ts[i].span.s() + 5,
+        i + 1 < ts.len() ==> ts[i].span.e() == ts[i + 1].span.s(),
+        adjacent(ts),
+{ reveal(adjacent); }
 /// X3: stands for the repository's debug_assert_adjacent! (a `windows(2).all(..)` run-time check)
 #[verifier::external_body]
 pub fn check_adjacent(ts: &[Token]) requires adjacent(ts@) /* [panic] */ {}
@@ -201,6 +218,17 @@ pub fn check_adjacent(ts: &[Token]) requires adjacent(ts@) /* [panic] */ {}
 pub open spec fn content_kind(k: TokenKind) -> bool { k == TokenKind::Word || k == TokenKind::Int || k == TokenKind::ZeroInt || k == TokenKind::Escaped }
 /// first byte of a token's content (an escaped token's content starts after the backslash)
 pub open spec fn cs(t: Token) -> int { if t.kind == TokenKind::Escaped { t.span.s() + 1 } else { t.span.s() } }
+pub proof fn lemma_off_mono(ts: Seq<Token>, c1: int, c2: int)
+    requires toks_ok(ts), 0 <= c1 <= c2 <= ts.len(), ts.len() > 0
+    ensures cur_off(ts, c1) <= cur_off(ts, c2), gbnd(cur_off(ts, c1)), gbnd(cur_off(ts, c2)),
+        c1 < c2 ==> cur_off(ts, c1) <= ts[c1].span.s() && ts[c2 - 1].span.e() == cur_off(ts, c2),
+        c1 < ts.len() ==> cur_off(ts, c1) == ts[c1].span.s(),
+{
+    reveal(adjacent);
+    if c1 > 0 && c1 < ts.len() { assert(ts[c1 - 1].span.e() == ts[c1].span.s()); }
+    if c2 > 0 && c1 > 0 { lemma_mono(ts, c1 - 1, c2 - 1); }
+    if c2 > 0 { lemma_mono(ts, 0, c2 - 1); }
+}
 /// end offset of everything before token `index`
 pub open spec fn cur_off(ts: Seq<Token>, index: int) -> int { if index == 0 { ts[0].span.s() } else { ts[index - 1].span.e() } }
 } // verus!
@@ -436,6 +464,13 @@ ret r
 spec:
         ensures r == self.val()
 @*/
+/*@ fn src/located.rs Located::map
+tags C04
+ret r
+spec:
+        requires f.requires((self.val(),))
+        ensures r.sp() == self.sp(), f.ensures((self.val(),), r.val())
+@*/
 /*@ fn src/located.rs Located::take_pair
 tags C04
 ret r
@@ -451,10 +486,26 @@ impl IntoSpan for Span { open spec fn as_sp(self) -> (int, int) { (self.s(), sel
 impl IntoSpan for core::ops::Range<usize> { open spec fn as_sp(self) -> (int, int) { (self.start as int, self.end as int) } }
 impl<T> Located<T> {
     #[verifier::external_body]
-    pub fn new<S: Into<Span> + IntoSpan>(inner: T, span: S) -> (r: Self)
+    pub fn new<S: IntoSpan>(inner: T, span: S) -> (r: Self)
         requires span.as_sp().0 <= span.as_sp().1, gbnd(span.as_sp().0), gbnd(span.as_sp().1),   // [C04] every located item is a reportable location
         ensures r.val() == inner, r.sp().s() == span.as_sp().0, r.sp().e() == span.as_sp().1
     { unimplemented!() }
+}
+impl<T> core::ops::Deref for Located<T> {
+    type Target = T;
+/*@ fn src/located.rs <Deref~for~Located>::deref
+tags C04
+ret r
+spec:
+        ensures *r == self.val()
+@*/
+}
+// TRUSTED stand-in for `crate::error::Recover` as used by the covered code (`Recover::recover()` for a located
+// quantity): the recovered value is located at Span(0, 0) (src/located.rs + src/span.rs Recover impls)
+pub trait Recover: Sized { spec fn rec_ok(r: Self) -> bool; fn recover() -> (r: Self) ensures Self::rec_ok(r); }
+impl<T> Recover for Located<T> {
+    open spec fn rec_ok(r: Self) -> bool { r.sp().s() == 0 && r.sp().e() == 0 }
+    #[verifier::external_body] fn recover() -> (r: Self) { unimplemented!() }
 }
 } // verus!
 } // mod located
@@ -571,6 +622,14 @@ derive
 /*@ type src/parser/model.rs QuantityValue
 derive
 @*/
+impl QuantityValue {
+/*@ fn src/parser/model.rs QuantityValue::span
+tags C04
+ret r
+spec:
+        ensures r == self.value.sp()
+@*/
+}
 /*@ type src/parser/model.rs IntermediateData
 derive Clone, Copy
 @*/
@@ -594,8 +653,68 @@ derive
 /*@ type src/parser/mod.rs BlockKind
 derive Clone, PartialEq, Structural
 @*/
+/// C05: the span reported by event `ev` includes the bytes [a, b)
+pub open spec fn ev_covers<'i>(ev: Event<'i>, a: int, b: int) -> bool {
+    match ev {
+        Event::Text(t) => t.frags().len() > 0 && t.start_spec() <= a && b <= t.end_spec(),
+        Event::Ingredient(l) => l.sp().s() <= a && b <= l.sp().e(),
+        Event::Cookware(l) => l.sp().s() <= a && b <= l.sp().e(),
+        Event::Timer(l) => l.sp().s() <= a && b <= l.sp().e(),
+        Event::Metadata { key, value } => (key.frags().len() > 0 && key.start_spec() <= a && b <= key.end_spec())
+            || (value.frags().len() > 0 && value.start_spec() <= a && b <= value.end_spec()),
+        Event::Section { name } => name.is_some() && name.unwrap().frags().len() > 0 && name.unwrap().start_spec() <= a && b <= name.unwrap().end_spec(),
+        _ => false,
+    }
+}
+/// C05: token `t` needs no cover (no letter/digit content) or some event queued at index >= from covers it
+pub open spec fn tok_covered<'i>(t: Token, evs: Seq<Event<'i>>, from: int) -> bool {
+    (content_kind(t.kind) && cs(t) < t.span.e()) ==> exists|k: int| from <= k < evs.len() && ev_covers(#[trigger] evs[k], cs(t), t.span.e())
+}
+/// C05: every token before index `upto` is covered
+pub open spec fn covered<'i>(ts: Seq<Token>, upto: int, evs: Seq<Event<'i>>, from: int) -> bool {
+    forall|i: int| 0 <= i < upto ==> tok_covered(#[trigger] ts[i], evs, from)
+}
+pub proof fn lemma_tok_covered_grown<'i>(t: Token, old_e: Seq<Event<'i>>, new_e: Seq<Event<'i>>, from: int)
+    requires tok_covered(t, old_e, from), ev_grown(new_e, old_e), 0 <= from
+    ensures tok_covered(t, new_e, from)
+{
+    if content_kind(t.kind) && cs(t) < t.span.e() {
+        let k = choose|k: int| from <= k < old_e.len() && ev_covers(#[trigger] old_e[k], cs(t), t.span.e());
+        assert(new_e.subrange(0, old_e.len() as int)[k] == new_e[k]);
+        assert(ev_covers(new_e[k], cs(t), t.span.e()));
+    }
+}
+pub proof fn lemma_covered_grown<'i>(ts: Seq<Token>, upto: int, old_e: Seq<Event<'i>>, new_e: Seq<Event<'i>>, from: int)
+    requires covered(ts, upto, old_e, from), ev_grown(new_e, old_e), 0 <= from
+    ensures covered(ts, upto, new_e, from)
+{
+    assert forall|i: int| 0 <= i < upto implies tok_covered(#[trigger] ts[i], new_e, from) by { lemma_tok_covered_grown(ts[i], old_e, new_e, from); }
+}
+/// the queue only grows: `old` is a prefix of `new`
+pub open spec fn ev_grown<'i>(new: Seq<Event<'i>>, old: Seq<Event<'i>>) -> bool {
+    old.len() <= new.len() && new.subrange(0, old.len() as int) == old
+}
+/// ... and everything appended is a diagnostic (Error / Warning)
+pub open spec fn only_diags<'i>(new: Seq<Event<'i>>, old: Seq<Event<'i>>) -> bool {
+    ev_grown(new, old) && forall|k: int| old.len() <= k < new.len() ==> (#[trigger] new[k] is Error || new[k] is Warning)
+}
+pub broadcast proof fn lemma_grown_refl<'i>(a: Seq<Event<'i>>) ensures ev_grown(a, a), #[trigger] only_diags(a, a) { assert(a.subrange(0, a.len() as int) =~= a); }
+pub proof fn lemma_grown_trans<'i>(c: Seq<Event<'i>>, b: Seq<Event<'i>>, a: Seq<Event<'i>>)
+    requires ev_grown(c, b), ev_grown(b, a) ensures ev_grown(c, a)
+{ assert(c.subrange(0, a.len() as int) =~= b.subrange(0, a.len() as int)) by { assert(c.subrange(0, b.len() as int).subrange(0, a.len() as int) =~= c.subrange(0, a.len() as int)); } }
+pub broadcast proof fn lemma_diags_trans<'i>(c: Seq<Event<'i>>, b: Seq<Event<'i>>, a: Seq<Event<'i>>)
+    requires #[trigger] only_diags(c, b), #[trigger] only_diags(b, a) ensures only_diags(c, a)
+{
+    lemma_grown_trans(c, b, a);
+    assert forall|k: int| a.len() <= k < c.len() implies (#[trigger] c[k] is Error || c[k] is Warning) by {
+        if k < b.len() { assert(c.subrange(0, b.len() as int)[k] == c[k]); assert(b[k] is Error || b[k] is Warning); }
+    }
+}
+pub proof fn lemma_grown_push<'i>(a: Seq<Event<'i>>, e: Event<'i>) ensures ev_grown(a.push(e), a), (e is Error || e is Warning) ==> only_diags(a.push(e), a)
+{ assert(a.push(e).subrange(0, a.len() as int) =~= a); }
 } // verus!
 } // mod parser_ev
+pub use crate::parser_ev::*;
 
 verus! {
 // TRUSTED: slice::Iter::position returns the first index whose predicate holds (no vstd specification).
@@ -626,6 +745,13 @@ pub fn slice_any<T, P: Fn(&T) -> bool>(s: &[T], pred: P) -> (r: bool)
         !r ==> forall|i: int| 0 <= i < s@.len() ==> pred.ensures((&#[trigger] s@[i],), false),
         r ==> exists|i: int| 0 <= i < s@.len() && pred.ensures((&#[trigger] s@[i],), true),
 { s.iter().any(pred) }
+#[verifier::external_body]
+pub fn slice_find<'a, T, P: Fn(&&'a T) -> bool>(s: &'a [T], pred: P) -> (r: Option<&'a T>)
+    requires forall|x: &&'a T| #[trigger] pred.requires((x,)),
+    ensures
+        r.is_none() ==> forall|i: int| 0 <= i < s@.len() ==> pred.ensures((&&#[trigger] s@[i],), false),
+        r.is_some() ==> exists|i: int| 0 <= i < s@.len() && *r.unwrap() == #[trigger] s@[i] && pred.ensures((&&s@[i],), true),
+{ s.iter().find(pred) }
 pub proof fn lemma_vals_as_ref<T>(s: Seq<T>) ensures vals(s.as_ref()) == s { assert(vals(s.as_ref()) =~= s); }
 } // verus!
 
@@ -658,12 +784,13 @@ pub proof fn lemma_frags_push(pre: Seq<TextFragment>, post: Seq<TextFragment>, l
 }
 /*@ type src/parser/block_parser.rs BlockParser
 derive
+rewrite `    tokens: &'t [Token],` => `    pub(crate) tokens: &'t [Token],`
 @*/
 
 impl<'t, 'i> BlockParser<'t, 'i> {
     pub closed spec fn toks(&self) -> Seq<Token> { self.tokens@ }
-    pub closed spec fn cur(&self) -> int { self.current as int }
-    pub closed spec fn inp(&self) -> &'i str { self.input }
+    pub open(crate) spec fn cur(&self) -> int { self.current as int }
+    pub open(crate) spec fn inp(&self) -> &'i str { self.input }
     pub closed spec fn ext(&self) -> Extensions { self.extensions }
     pub closed spec fn evs(&self) -> Seq<Event<'i>> { self.events@ }
     /// representation invariant of the block parser
@@ -781,7 +908,7 @@ loop 0 it it:
                 frags_ok(t.frags(), tokens@[0].span.s(), start as int),     // [C04]
 before `match token.kind {`:
             proof { t.lemma_span_order(); }
-            proof { let idx = it.index@ as int; lemma_mono(tokens@, 0, idx); assert(*token == tokens@[idx]); if idx > 0 { assert(tokens@[idx - 1].span.e() == tokens@[idx].span.s()); } }
+            proof { let idx = it.index@ as int; lemma_mono(tokens@, 0, idx); assert(*token == tokens@[idx]); if idx > 0 { lemma_tok(tokens@, idx - 1); } }
             let ghost pre = t.frags();
             let ghost lo = tokens@[0].span.s();
             let ghost start0 = start as int;
@@ -827,7 +954,10 @@ tags C03 C04
 ret r
 spec:
         requires self.wf()
-        ensures r == self.off(), gbnd(r as int)    // [C04]
+        ensures r == self.off(), gbnd(r as int),    // [C04]
+            self.cur() < self.toks().len() ==> r == self.toks()[self.cur()].span.s(),
+before `self.parsed()`:
+        proof { lemma_off_mono(self.toks(), self.cur(), self.cur()); }
 closure 0 `&Token` ret `e: usize`:
         ensures e == t.span.e()
 @*/
@@ -976,13 +1106,19 @@ spec:
 tags C03 C07
 spec:
         requires error.sev() == crate::error::Severity::Error   // [C07] severity matches the event kind
-        ensures final(self).same(old(self)), final(self).cur() == old(self).cur(), final(self).evs() == old(self).evs().push(Event::Error(error))
+        ensures final(self).same(old(self)), final(self).cur() == old(self).cur(), final(self).evs() == old(self).evs().push(Event::Error(error)),
+            only_diags(final(self).evs(), old(self).evs())
+after `self.event(Event::Error(error))`:
+        ; proof { crate::parser_ev::lemma_grown_push(old(self).evs(), Event::Error(error)); }
 @*/
 /*@ fn src/parser/block_parser.rs BlockParser::warn
 tags C03 C07
 spec:
         requires warn.sev() == crate::error::Severity::Warning   // [C07]
-        ensures final(self).same(old(self)), final(self).cur() == old(self).cur(), final(self).evs() == old(self).evs().push(Event::Warning(warn))
+        ensures final(self).same(old(self)), final(self).cur() == old(self).cur(), final(self).evs() == old(self).evs().push(Event::Warning(warn)),
+            only_diags(final(self).evs(), old(self).evs())
+after `self.event(Event::Warning(warn))`:
+        ; proof { crate::parser_ev::lemma_grown_push(old(self).evs(), Event::Warning(warn)); }
 @*/
 }
 } // verus!
@@ -1015,6 +1151,7 @@ use crate::*;
 use crate::block_parser::BlockParser;
 use crate::parser_ev::Event;
 verus! {
+broadcast use {crate::parser_ev::lemma_diags_trans, crate::parser_ev::lemma_grown_refl};
 /*@ fn src/parser/section.rs section
 tags C03 C04 C05 C07
 ret r
@@ -1025,6 +1162,7 @@ spec:
         r.is_some() ==> final(block).cur() == final(block).toks().len() && final(block).evs() == old(block).evs() && r.unwrap() is Section,
         // [C07] the only diagnostic is one warning, exactly when something follows the closing `=`s
         r.is_none() ==> (final(block).evs() == old(block).evs() || (final(block).evs().len() == old(block).evs().len() + 1 && final(block).evs().last() is Warning)),
+        only_diags(final(block).evs(), old(block).evs()),
 closure 0 `TokenKind` ret `b: bool`:
         ensures b == (t == TokenKind::Eq)
 closure 1 `TokenKind` ret `b: bool`:
@@ -1041,6 +1179,7 @@ use crate::*;
 use crate::block_parser::BlockParser;
 use crate::parser_ev::Event;
 verus! {
+broadcast use {crate::parser_ev::lemma_diags_trans, crate::parser_ev::lemma_grown_refl};
 /*@ fn src/parser/metadata.rs metadata_entry
 tags C03 C04 C05 C07
 ret r
@@ -1052,6 +1191,7 @@ spec:
         r.is_some() ==> final(block).cur() == final(block).toks().len() && r.unwrap() is Metadata,
         // [C07] at most one diagnostic is queued
         final(block).evs() == old(block).evs() || (final(block).evs().len() == old(block).evs().len() + 1 && (final(block).evs().last() is Warning || final(block).evs().last() is Error)),
+        only_diags(final(block).evs(), old(block).evs()),
 closure 0 `TokenKind` ret `b: bool`:
         ensures b == (t == TokenKind::Colon)
 @*/
@@ -1064,6 +1204,7 @@ use crate::*;
 use crate::block_parser::BlockParser;
 use crate::parser_ev::{Event, BlockKind};
 verus! {
+broadcast use {crate::parser_ev::lemma_diags_trans, crate::parser_ev::lemma_grown_refl};
 /*@ fn src/parser/text_block.rs parse_text_block
 tags C03 C04 C05
 inline and_then 0
@@ -1104,6 +1245,11 @@ ret r
 spec:
     requires old(bp).wf(), tokens@.len() > 0, toks_ok(tokens@),
     ensures final(bp).wf(), final(bp).same(old(bp)), final(bp).cur() == old(bp).cur(),
+        only_diags(final(bp).evs(), old(bp).evs()),
+        r.quantity.sp().ok(), r.unit_separator.is_some() ==> r.unit_separator.unwrap().ok(),
+        r.quantity.val().unit.is_some() ==> r.quantity.val().unit.unwrap().wf() && gbnd(r.quantity.val().unit.unwrap().start_spec()) && gbnd(r.quantity.val().unit.unwrap().end_spec())
+            && (r.unit_separator.is_some() ==> r.unit_separator.unwrap().s() <= r.quantity.val().unit.unwrap().end_spec()),
+        r.quantity.val().value.value.sp().ok(),
 @*/
 } // verus!
 } // mod quantity_parser
@@ -1114,10 +1260,12 @@ use crate::*;
 use crate::block_parser::BlockParser;
 use crate::parser_ev::{Event, BlockKind};
 use crate::parser_model::*;
-use crate::located::Located;
+use crate::located::{Located, Recover};
 use crate::text::Text;
+use crate::span::Span;
 use crate::quantity_parser::parse_quantity;
 verus! {
+broadcast use {crate::parser_ev::lemma_diags_trans, crate::parser_ev::lemma_grown_refl};
 /*@ type src/parser/step.rs Body
 derive
 @*/
@@ -1134,6 +1282,12 @@ rewrite `&str` => `&'static str`
 rewrite `&str` => `&'static str`
 @*/
 
+proof fn lemma_names()
+    ensures TIMER@ != INGREDIENT@, TIMER@ != COOKWARE@, COOKWARE@ != INGREDIENT@
+{
+    reveal_strlit("timer"); reveal_strlit("ingredient"); reveal_strlit("cookware");
+    assert(TIMER@.len() == 5); assert(INGREDIENT@.len() == 10); assert(COOKWARE@.len() == 8);
+}
 pub open spec fn is_marker(k: TokenKind) -> bool { k == TokenKind::At || k == TokenKind::Hash || k == TokenKind::Tilde }
 
 /*@ fn src/parser/step.rs check_modifiers
@@ -1144,6 +1298,7 @@ spec:
         // [C07] one error exactly when modifiers are present
         modifiers_tokens@.len() == 0 ==> final(bp).evs() == old(bp).evs(),
         modifiers_tokens@.len() > 0 ==> final(bp).evs().len() == old(bp).evs().len() + 1 && final(bp).evs().last() is Error,
+        only_diags(final(bp).evs(), old(bp).evs()),
 @*/
 /*@ fn src/parser/step.rs check_intermediate_data
 tags C03 C04 C07
@@ -1152,7 +1307,7 @@ spec:
     requires old(bp).wf(), container@ != INGREDIENT@,
         parsed_modifiers.intermediate_data.is_some() ==> parsed_modifiers.intermediate_data.unwrap().sp().ok(),
     ensures final(bp).wf(), final(bp).same(old(bp)), final(bp).cur() == old(bp).cur(),
-        r == parsed_modifiers.flags,
+        r == parsed_modifiers.flags, only_diags(final(bp).evs(), old(bp).evs()),
 @*/
 /*@ fn src/parser/step.rs check_empty_name
 tags C03 C04 C07
@@ -1162,6 +1317,7 @@ spec:
         // [C07] one error exactly when the name is blank
         !name.blank() ==> final(bp).evs() == old(bp).evs(),
         name.blank() ==> final(bp).evs().len() == old(bp).evs().len() + 1 && final(bp).evs().last() is Error,
+        only_diags(final(bp).evs(), old(bp).evs()),
 @*/
 /*@ fn src/parser/step.rs check_alias
 tags C03 C04 C07 C02
@@ -1172,6 +1328,7 @@ spec:
         !old(bp).ext().has(Extensions::COMPONENT_ALIAS) ==> final(bp).evs() == old(bp).evs(),
         // [C07] at most one error
         final(bp).evs() == old(bp).evs() || (final(bp).evs().len() == old(bp).evs().len() + 1 && final(bp).evs().last() is Error),
+        only_diags(final(bp).evs(), old(bp).evs()),
 closure 0 `&Token` ret `b: bool`:
         ensures b == (t.kind == TokenKind::Or)
 before `if let Some(sep) = name_tokens.iter().position(`:
@@ -1186,19 +1343,278 @@ spec:
     requires old(bp).wf(), old(bp).cur() >= 1, container@ != INGREDIENT@, container@ != COOKWARE@,
     ensures final(bp).wf(), final(bp).same(old(bp)), final(bp).cur() == old(bp).cur(),    // [C05] the note is never consumed: it stays text
         final(bp).evs() == old(bp).evs() || (final(bp).evs().len() == old(bp).evs().len() + 1 && final(bp).evs().last() is Warning),
+        only_diags(final(bp).evs(), old(bp).evs()),
 closure 0 `&mut BlockParser` ret `o: Option<()>`:
         requires old(bp).wf(), old(bp).cur() >= 1
         ensures final(bp).wf(), final(bp).same(old(bp)), o.is_none(),
             final(bp).evs() == old(bp).evs() || (final(bp).evs().len() == old(bp).evs().len() + 1 && final(bp).evs().last() is Warning),
+            only_diags(final(bp).evs(), old(bp).evs()),
 closure 1 `TokenKind` ret `b: bool`:
         ensures b == (t == TokenKind::CloseParen)
 before `bp.warn(`:
             proof { lemma_mono(bp.toks(), old(bp).cur(), bp.cur() - 1); }
 @*/
-/*@ fn src/parser/step.rs parse_step stub
+/*@ fn src/parser/step.rs note
+tags C03 C04 C05
+ret r
+spec:
+    requires old(bp).wf(),
+    ensures final(bp).wf(), final(bp).same(old(bp)), final(bp).evs() == old(bp).evs(),
+        r.is_none() ==> final(bp).cur() == old(bp).cur(),
+        r.is_some() ==> final(bp).cur() > old(bp).cur() && r.unwrap().wf() && gbnd(r.unwrap().start_spec()) && gbnd(r.unwrap().end_spec()),
+closure 0 `&mut BlockParser<'_, 'i>` ret `o: Option<Text<'i>>`:
+        requires old(line).wf()
+        ensures final(line).wf(), final(line).same(old(line)), final(line).evs() == old(line).evs(),
+            o.is_some() ==> final(line).cur() > old(line).cur() && o.unwrap().wf() && gbnd(o.unwrap().start_spec()) && gbnd(o.unwrap().end_spec()),
+closure 1 `TokenKind` ret `b: bool`:
+        ensures b == (t == TokenKind::CloseParen)
+@*/
+/*@ fn src/parser/step.rs modifiers
+tags C03 C05 C02
+ret r
+spec:
+    requires old(bp).wf(),
+    ensures final(bp).wf(), final(bp).same(old(bp)), final(bp).evs() == old(bp).evs(),
+        old(bp).cur() <= final(bp).cur(),
+        r@ == old(bp).toks().subrange(old(bp).cur(), final(bp).cur()), toks_ok(r@),
+        // [C02] with the modifiers extension off nothing is consumed
+        !old(bp).ext().has(Extensions::COMPONENT_MODIFIERS) ==> r@.len() == 0 && final(bp).cur() == old(bp).cur(),
+before `return &[];`:
+        proof { assert(old(bp).toks().subrange(old(bp).cur(), old(bp).cur()) =~= Seq::<Token>::empty()); lemma_sub_ok(old(bp).toks(), old(bp).cur(), old(bp).cur()); }
+loop 0:
+        invariant bp.wf(), bp.same(old(bp)), bp.evs() == old(bp).evs(), start == old(bp).cur(), start <= bp.cur(),
+        decreases bp.toks().len() - bp.cur()
+before `bp.with_recover(|bp| {`:
+                    let ghost pre = *bp;
+closure 0 `&mut BlockParser` ret `o: Option<()>`:
+        requires *old(bp) == pre, pre.wf()
+        ensures final(bp).wf(), final(bp).same(&pre), final(bp).evs() == pre.evs(), final(bp).cur() >= pre.cur(),
+closure 1 `TokenKind` ret `b: bool`:
+        ensures b == (t == TokenKind::CloseParen)
+before `&bp.tokens()[start..bp.current]`:
+    proof { lemma_sub_ok(bp.toks(), start as int, bp.cur()); }
+@*/
+impl<'t> Body<'t> {
+    /// what comp_body promises about a parsed component body that started at token `c0` of `ts`
+    spec fn ok(&self, ts: Seq<Token>, c0: int) -> bool {
+        &&& self.name@ == ts.subrange(c0, c0 + self.name@.len()) && c0 + self.name@.len() <= ts.len() && toks_ok(self.name@)
+        &&& (self.close.is_some() ==> self.close.unwrap().ok() && cur_off(ts, c0) <= self.close.unwrap().s())
+        &&& (self.quantity.is_some() ==> self.quantity.unwrap()@.len() > 0 && toks_ok(self.quantity.unwrap()@))
+    }
+}
+/*@ fn src/parser/step.rs comp_body
+tags C03 C04 C05 C07
+ret r
+inline or_else 0
+rewrite `quantity\n            .iter()\n            .any(` => `crate::slice_any(quantity, `
+spec:
+    requires old(bp).wf(),
+    ensures final(bp).wf(), final(bp).same(old(bp)),
+        r.is_none() ==> final(bp).cur() == old(bp).cur(),    // [C05] a failed body gives every token back
+        r.is_some() ==> final(bp).cur() > old(bp).cur() && r.unwrap().ok(old(bp).toks(), old(bp).cur()),
+        final(bp).evs() == old(bp).evs() || (final(bp).evs().len() == old(bp).evs().len() + 1 && final(bp).evs().last() is Warning),
+        only_diags(final(bp).evs(), old(bp).evs()),
+closure 0 `&mut BlockParser<'t, '_>` ret `o: Option<Body<'t>>`:
+        requires old(line).wf()
+        ensures final(line).wf(), final(line).same(old(line)), final(line).evs() == old(line).evs(),
+            o.is_some() ==> final(line).cur() > old(line).cur() && o.unwrap().ok(old(line).toks(), old(line).cur()),
+closure 1 `TokenKind` ret `b: bool`:
+        ensures b == (t == TokenKind::OpenBrace || is_marker(t))
+closure 2 `TokenKind` ret `b: bool`:
+        ensures b == (t == TokenKind::CloseBrace)
+closure 3 `&Token` ret `b: bool`:
+        ensures b == !(t.kind == TokenKind::Whitespace || t.kind == TokenKind::BlockComment)
+closure 5 `&mut BlockParser<'t, '_>` ret `o: Option<Body<'t>>`:
+        requires old(bp).wf()
+        ensures final(bp).wf(), final(bp).same(old(bp)),
+            o.is_some() ==> final(bp).cur() > old(bp).cur() && o.unwrap().ok(old(bp).toks(), old(bp).cur()) && final(bp).evs() == old(bp).evs(),
+            final(bp).evs() == old(bp).evs() || (final(bp).evs().len() == old(bp).evs().len() + 1 && final(bp).evs().last() is Warning),
+            only_diags(final(bp).evs(), old(bp).evs()),
+closure 6 `TokenKind` ret `b: bool`:
+        ensures b == (t == TokenKind::Word || t == TokenKind::Int || t == TokenKind::ZeroInt)
+after `let close_span_start = line.consume(T!['{'])?.span.start();`:
+        let ghost i1 = line.cur() - 1;
+before `let close_span = Span::new(close_span_start, close_span_end);`:
+        proof { lemma_mono(line.toks(), i1, line.cur() - 1); assert(line.toks()[i1].span.s() < line.toks()[i1].span.e());
+                lemma_off_mono(line.toks(), old(line).cur(), i1); lemma_mono(line.toks(), old(line).cur(), i1); }
+@*/
+/*@ fn src/parser/step.rs parse_modifiers stub
+ret r
+spec:
+    requires old(bp).wf(), toks_ok(modifiers_tokens@), gbnd(modifiers_pos as int),
+    ensures final(bp).wf(), final(bp).same(old(bp)), final(bp).cur() == old(bp).cur(), only_diags(final(bp).evs(), old(bp).evs()),
+        r.flags.sp().ok(), r.intermediate_data.is_some() ==> r.intermediate_data.unwrap().sp().ok(),
+        r.flags.val().has(Modifiers::RECIPE) ==> exists|i: int| 0 <= i < modifiers_tokens@.len() && (#[trigger] modifiers_tokens@[i]).kind == TokenKind::At,
+@*/
+/*@ fn src/parser/step.rs parse_alias
+tags C03 C04 C07 C02
+ret r
+inline then 0
+rewrite `alias_text_tokens.iter().any(` => `crate::slice_any(alias_text_tokens, `
+spec:
+    requires old(bp).wf(), toks_ok(tokens@), gbnd(name_offset as int), tokens@.len() > 0 ==> name_offset == tokens@[0].span.s(),
+    ensures final(bp).wf(), final(bp).same(old(bp)), final(bp).cur() == old(bp).cur(), only_diags(final(bp).evs(), old(bp).evs()),
+        r.0.wf() && gbnd(r.0.start_spec()) && gbnd(r.0.end_spec()),
+        r.1.is_some() ==> r.1.unwrap().wf() && gbnd(r.1.unwrap().start_spec()) && gbnd(r.1.unwrap().end_spec()),
+        // [C02] with the alias extension off `|` stays in the name and nothing is reported
+        !old(bp).ext().has(Extensions::COMPONENT_ALIAS) ==> r.1.is_none() && final(bp).evs() == old(bp).evs(),
+closure 1 `&Token` ret `b: bool`:
+        ensures b == (t.kind == TokenKind::Or)
+closure 2 `&Token` ret `b: bool`:
+        ensures b == (t.kind == TokenKind::Or)
+before `if let Some(alias_sep) = bp`:
+    proof { lemma_vals_as_ref(tokens@); }
+after `let (name_tokens, alias_tokens) = tokens.split_at(alias_sep);`:
+        proof { lemma_sub_ok(tokens@, 0, alias_sep as int); lemma_sub_ok(tokens@, alias_sep as int, tokens@.len() as int);
+                assert(name_tokens@ =~= tokens@.subrange(0, alias_sep as int)); assert(alias_tokens@ =~= tokens@.subrange(alias_sep as int, tokens@.len() as int)); }
+after `let (alias_sep, alias_text_tokens) = alias_tokens.split_first().unwrap();`:
+        proof { lemma_sub_ok(alias_tokens@, 1, alias_tokens@.len() as int); assert(alias_text_tokens@ =~= alias_tokens@.subrange(1, alias_tokens@.len() as int));
+                if alias_text_tokens@.len() > 0 { lemma_tok(alias_tokens@, 0); lemma_mono(alias_tokens@, 0, alias_tokens@.len() - 1); } }
+@*/
+/// C04/C05: a component event is located exactly at the bytes it consumed
+pub open spec fn comp_at<'i>(ev: Event<'i>, a: int, b: int) -> bool {
+    match ev {
+        Event::Ingredient(l) => l.sp().s() == a && l.sp().e() == b,
+        Event::Cookware(l) => l.sp().s() == a && l.sp().e() == b,
+        Event::Timer(l) => l.sp().s() == a && l.sp().e() == b,
+        _ => false,
+    }
+}
+/*@ fn src/parser/step.rs ingredient
+tags C03 C04 C05 C07
+ret r
+inline map 0
+spec:
+    requires old(bp).wf(),
+    ensures final(bp).wf(), final(bp).same(old(bp)), only_diags(final(bp).evs(), old(bp).evs()),
+        // [C04] [C05] the event spans exactly the consumed tokens
+        r.is_some() ==> final(bp).cur() > old(bp).cur() && comp_at(r.unwrap(), old(bp).off(), final(bp).off()),
+after `let body = comp_body(bp)?;`:
+    proof { lemma_off_mono(bp.toks(), old(bp).cur() + 1, bp.cur()); }
+after `let end = bp.current_offset();`:
+    proof { lemma_off_mono(bp.toks(), old(bp).cur(), bp.cur()); }
+@*/
+/*@ fn src/parser/step.rs cookware
+tags C03 C04 C05 C07
+ret r
+inline map 0
+inline map 2
+rewrite `modifiers_tokens\n            .iter()\n            .find(` => `crate::slice_find(modifiers_tokens, `
+spec:
+    requires old(bp).wf(),
+    ensures final(bp).wf(), final(bp).same(old(bp)), only_diags(final(bp).evs(), old(bp).evs()),
+        // [C04] [C05] the event spans exactly the consumed tokens
+        r.is_some() ==> final(bp).cur() > old(bp).cur() && comp_at(r.unwrap(), old(bp).off(), final(bp).off()),
+closure 1 `Quantity<'i>` ret `v: QuantityValue`:
+        ensures v == q.value
+closure 2 `&&Token` ret `b: bool`:
+        ensures b == (t.kind == TokenKind::At)
+after `let body = comp_body(bp)?;`:
+    proof { lemma_off_mono(bp.toks(), old(bp).cur() + 1, bp.cur()); lemma_names(); }
+after `let end = bp.current_offset();`:
+    proof { lemma_off_mono(bp.toks(), old(bp).cur(), bp.cur()); }
+@*/
+/*@ fn src/parser/step.rs timer
+tags C03 C04 C05 C07 C02
+ret r
+inline map 0
+inline unwrap_or_else 0
+spec:
+    requires old(bp).wf(),
+    ensures final(bp).wf(), final(bp).same(old(bp)), only_diags(final(bp).evs(), old(bp).evs()),
+        // [C04] [C05] the event spans exactly the consumed tokens
+        r.is_some() ==> final(bp).cur() > old(bp).cur() && comp_at(r.unwrap(), old(bp).off(), final(bp).off()),
+after `let body = comp_body(bp)?;`:
+    proof { lemma_off_mono(bp.toks(), old(bp).cur() + 1, bp.cur()); lemma_names(); }
+after `let end = bp.current_offset();`:
+    proof { lemma_off_mono(bp.toks(), old(bp).cur(), bp.cur()); }
+@*/
+/*@ fn src/parser/step.rs parse_step
+tags C03 C04 C05
 spec:
     requires old(bp).wf(), old(bp).cur() == 0,
-    ensures final(bp).wf(), final(bp).same(old(bp)), final(bp).cur() == final(bp).toks().len(),
+    ensures final(bp).wf(), final(bp).same(old(bp)),
+        final(bp).cur() == final(bp).toks().len(),     // [C03] [C05] every token is consumed (progress; finish() cannot panic)
+        ev_grown(final(bp).evs(), old(bp).evs()),
+        // [C05] every token that can hold a letter or digit lies in the span of an event emitted by this call
+        covered(final(bp).toks(), final(bp).toks().len() as int, final(bp).evs(), old(bp).evs().len() as int),    // [C05]
+enter:
+    hide(toks_ok);
+after `bp.event(Event::Start(BlockKind::Step));`:
+    proof { lemma_grown_push(old(bp).evs(), Event::Start(BlockKind::Step)); }
+    let ghost n0 = old(bp).evs().len() as int;
+loop 0:
+        invariant bp.wf(), bp.same(old(bp)), ev_grown(bp.evs(), old(bp).evs()), n0 == old(bp).evs().len(), n0 < bp.evs().len(),
+            covered(bp.toks(), bp.cur(), bp.evs(), n0),     // [C05]
+        decreases bp.toks().len() - bp.cur()
+before `let component = match bp.peek() {`:
+        let ghost pre = *bp;
+        proof { assert(bp.cur() < bp.toks().len()); }
+before `if let Some(ev) = component {`:
+        proof {
+            lemma_grown_refl(pre.evs());
+            assert(only_diags(bp.evs(), pre.evs()));
+            lemma_grown_trans(bp.evs(), pre.evs(), old(bp).evs());
+            lemma_covered_grown(bp.toks(), pre.cur(), pre.evs(), bp.evs(), n0);
+        }
+        let ghost mid = *bp;
+after `bp.event(ev)`:
+            ; proof {
+                lemma_grown_push(mid.evs(), ev);
+                lemma_grown_trans(bp.evs(), mid.evs(), old(bp).evs());
+                lemma_covered_grown(bp.toks(), pre.cur(), mid.evs(), bp.evs(), n0);
+                assert forall|i: int| 0 <= i < bp.cur() implies tok_covered(#[trigger] bp.toks()[i], bp.evs(), n0) by {
+                    if i >= pre.cur() {
+                        lemma_mono(bp.toks(), pre.cur(), i); lemma_mono(bp.toks(), i, bp.cur() - 1);
+                        lemma_off_mono(bp.toks(), pre.cur(), bp.cur());
+                        let k = bp.evs().len() - 1;
+                        assert(bp.evs()[k] == ev);
+                        assert(ev_covers(bp.evs()[k], cs(bp.toks()[i]), bp.toks()[i].span.e()));
+                    }
+                }
+                assert(covered(bp.toks(), bp.cur(), bp.evs(), n0));
+            }
+before `let tokens = bp.capture_slice(|bp| {`:
+            let ghost pre2 = *bp;
+closure 0 `&mut BlockParser` :
+        requires *old(bp) == pre2, pre2.wf(), pre2.cur() < pre2.toks().len()
+        ensures final(bp).wf(), final(bp).same(&pre2), final(bp).cur() > pre2.cur(), final(bp).evs() == pre2.evs(),
+closure 1 `TokenKind` ret `b: bool`:
+        ensures b == !is_marker(t)
+after `let text = bp.text(start, tokens);`:
+            proof { lemma_off_mono(bp.toks(), pre2.cur(), bp.cur()); }
+            let ghost mid2 = *bp;
+after `bp.event(Event::Text(text));`:
+                proof {
+                    lemma_grown_push(mid2.evs(), Event::Text(text));
+                    lemma_grown_trans(bp.evs(), mid2.evs(), old(bp).evs());
+                }
+after `bp.event(Event::Text(text));\n            }`:
+            proof {
+                lemma_grown_refl(mid2.evs());
+                lemma_covered_grown(bp.toks(), pre.cur(), mid2.evs(), bp.evs(), n0);
+                assert forall|i: int| 0 <= i < bp.cur() implies tok_covered(#[trigger] bp.toks()[i], bp.evs(), n0) by {
+                    if i >= pre.cur() {
+                        let t = bp.toks()[i];
+                        assert(tokens@[i - pre.cur()] == t);
+                        if content_kind(t.kind) && cs(t) < t.span.e() {
+                            assert(text.frags().len() > 0);
+                            let k = bp.evs().len() - 1;
+                            assert(bp.evs()[k] == Event::Text(text));
+                            assert(ev_covers(bp.evs()[k], cs(t), t.span.e()));
+                        }
+                    }
+                }
+                assert(covered(bp.toks(), bp.cur(), bp.evs(), n0));
+            }
+before `bp.event(Event::End(BlockKind::Step));`:
+    let ghost fin = *bp;
+after `bp.event(Event::End(BlockKind::Step));`:
+    proof {
+        lemma_grown_push(fin.evs(), Event::End(BlockKind::Step));
+        lemma_grown_trans(bp.evs(), fin.evs(), old(bp).evs());
+        lemma_covered_grown(bp.toks(), fin.cur(), fin.evs(), bp.evs(), n0);
+    }
 @*/
 } // verus!
 } // mod step
@@ -1215,6 +1631,7 @@ use crate::metadata::metadata_entry;
 use crate::text_block::parse_text_block;
 use crate::step::parse_step;
 verus! {
+broadcast use {crate::parser_ev::lemma_diags_trans, crate::parser_ev::lemma_grown_refl};
 /// C17: tokens that never separate or join blocks: whitespace, comments, newlines
 pub open spec fn empty_kind(k: TokenKind) -> bool { k == TokenKind::Whitespace || k == TokenKind::BlockComment || k == TokenKind::LineComment || k == TokenKind::Newline }
 /*@ fn src/parser/mod.rs is_empty_token
